@@ -132,12 +132,23 @@ type runResult struct {
 	counts       map[string]int
 }
 
-const (
-	stepWatchdog = 150 * time.Second
-)
+// blockedVerdicts counts runs that ended in a blocked-writers verdict; after two, the
+// remaining cases of the process are skipped (inconclusive) so that a tree that really
+// blocks does not cost one watchdog period per case.
+var blockedVerdicts atomic.Int64
 
 func execute(p runPlan) (res runResult) {
 	res.plan = p
+	if blockedVerdicts.Load() >= 2 {
+		res.inconclusive = "skipped-after-blocked-verdicts"
+		return
+	}
+	// watchdogs only trigger the state-based verdict; the runtime must have seen the goroutine
+	// parked for at least a minute before it counts
+	stepWatchdog := 150 * time.Second
+	if p.NonBlocking {
+		stepWatchdog = 70 * time.Second
+	}
 	ctx := context.Background()
 	timeout := 120 * time.Second
 	if p.NonBlocking {
@@ -167,6 +178,9 @@ func execute(p runPlan) (res runResult) {
 		}
 		if res.inconclusive == "" && res.sig == "" && len(rn.problems) > 0 {
 			res.inconclusive = rn.problems[0]
+		}
+		if strings.HasPrefix(res.sig, "c20:blocked:") {
+			blockedVerdicts.Add(1)
 		}
 	}()
 	var chans []cesium.Channel
